@@ -3,7 +3,7 @@
 From Coq Require Import ZArith List Bool.
 From GoIpa Require Import Model.Bytes Model.Zq Model.Sha256 Model.Alg Model.Transcript
   Model.Edwards Model.FpSqrt Model.Banderwagon Model.Codec Model.Bary Model.IPA
-  Model.Multiproof Model.Serde.
+  Model.Multiproof Model.Serde Model.Pippenger Model.Mont.
 Import ListNotations.
 Open Scope Z_scope.
 
@@ -53,3 +53,12 @@ Definition c_batch_invert_fr := batch_invert fro.
 Definition c_batch_invert_fp := batch_invert fpo.
 Definition c_inner := inner fro.
 Definition c_msm := msm bwo.
+
+(* algorithm-level MSM (bucket method) instantiated with the concrete group *)
+Definition c_msm_inner (c : Z) (points : list element) (scalars : list Fr) (split_first : bool) : element :=
+  msm_inner bwo c points (fst (partition_scalars c (map zval scalars))) split_first.
+
+(* fr.BatchInvert on Montgomery representatives *)
+Definition monto : FOps Z :=
+  mkFOps Z 0 i_one i_add i_sub i_mul i_neg i_inverse Z.eqb (fun v => i_to_mont v) (fun x => i_from_mont x).
+Definition c_batch_invert_mont := batch_invert monto.
